@@ -67,6 +67,9 @@ def main():
     res.new_violations = new
     res.coverage["known_finding_cases"] = {k: n for k, (e, n) in seen_known.items()}
     rdir = os.path.join(ROOT, "replays", a.prop)
+    if not a.replay and os.path.isdir(rdir):
+        import shutil
+        shutil.rmtree(rdir, ignore_errors=True)
     shown = {}
     for v in new:
         sig = json.dumps([v.key, v.clause], sort_keys=True)
